@@ -62,9 +62,26 @@ MODEL_FIELDS = [
     [("value", None)],
     [("a", None), ("b", "B"), ("c", None), ("d", "dd"), ("e", None)],
     [("opt", None), ("y", "Y")],          # "opt" defaults to UNSET (an UNSET that is never met when the field is unset)
+    # class 5: fields ANNOTATED with the real Upload class, as generated for
+    #   input DocumentInput { file: Upload!  files: [Upload!]  backupFile: Upload  title: String
+    #                         parent: DocumentInput  children: [DocumentInput!] }
+    [("file", None), ("files", None), ("backup", "backupFile"), ("title", None), ("parent", None), ("children", None)],
 ]
 UNSET_DEFAULT = {(4, "opt")}
+N_GENERIC = 5
+TYPED = 5
 N_UPLOADS = 4
+
+
+def TDOC(file, files=None, backup=None, parent=None, children=None):
+    none = ("leaf", "none", None)
+    return ("model", 5, [
+        ("file", None, True, ("up", file)),
+        ("files", None, True, ("list", [("up", i) for i in files])) if files is not None else ("files", None, False, none),
+        ("backup", "backupFile", True, ("up", backup)) if backup is not None else ("backup", "backupFile", False, none),
+        ("title", None, True, ("leaf", "str", "text")),
+        ("parent", None, True, parent) if parent is not None else ("parent", None, False, none),
+        ("children", None, True, ("list", children)) if children is not None else ("children", None, False, none)])
 
 
 class Gen:
@@ -93,10 +110,35 @@ class Gen:
             sub = "plain" if ctx != "dumped" else "dumped"
             ks = self.rng.sample(KEYS, self.rng.randint(0, 3))
             return ("dict", [(k, self.node(depth - 1, sub, p_up)) for k in ks])
+        if p_up > 0 and self.rng.random() < 0.4:
+            return self.typed_model(min(depth, 2))
         return self.model(depth, p_up)
 
+    def typed_model(self, depth):
+        """a generated-style input object whose Upload fields are annotated Upload / Optional[Upload] / List[Upload]"""
+        rng = self.rng
+        none = ("leaf", "none", None)
+        fs = [("file", None, True, self.upload())]
+        if rng.random() < 0.6:
+            fs.append(("files", None, True, ("list", [self.upload() for _ in range(rng.randint(0, 3))])))
+        else:
+            fs.append(("files", None, False, none))
+        r = rng.random()
+        fs.append(("backup", "backupFile", True, self.upload()) if r < 0.4 else
+                  ("backup", "backupFile", True, none) if r < 0.55 else ("backup", "backupFile", False, none))
+        fs.append(("title", None, True, ("leaf", "str", "text")) if rng.random() < 0.5 else ("title", None, False, none))
+        if depth > 0 and rng.random() < 0.4:
+            fs.append(("parent", None, True, self.typed_model(depth - 1)))
+        else:
+            fs.append(("parent", None, False, none))
+        if depth > 0 and rng.random() < 0.3:
+            fs.append(("children", None, True, ("list", [self.typed_model(depth - 1) for _ in range(rng.randint(1, 2))])))
+        else:
+            fs.append(("children", None, False, none))
+        return ("model", TYPED, fs)
+
     def model(self, depth, p_up):
-        ci = self.rng.randrange(len(MODEL_FIELDS))
+        ci = self.rng.randrange(N_GENERIC)
         fs = []
         for py, al in MODEL_FIELDS[ci]:
             if self.rng.random() < 0.6:
@@ -117,7 +159,7 @@ class Gen:
             else:
                 out.append((k, self.node(rng.randint(0, 3), "value", p_up)))
         if stream == "model-under-dict":
-            inner = self.model(2, rng.choice([0.0, 0.4]))
+            inner = self.typed_model(1) if rng.random() < 0.4 else self.model(2, rng.choice([0.0, 0.4]))
             wrap = ("dict", [("m", inner)]) if rng.random() < 0.6 else ("list", [("dict", [("k", ("list", [inner]))])])
             out.append(("wrapped", wrap))
         if stream == "nested-unset":
@@ -177,6 +219,20 @@ def model_classes():
             for py, al in fs:
                 dflt = bm.UNSET if (i, py) in UNSET_DEFAULT else None
                 spec[py] = (Any, Field(alias=al, default=dflt) if al else Field(default=dflt))
+            if i == TYPED:
+                from typing import List, Optional
+
+                ns = {"Optional": Optional, "List": List, "Upload": bm.Upload, "Field": Field, "BaseModel": bm.BaseModel}
+                exec("class DocumentInput(BaseModel):\n"
+                     "    file: Upload\n"
+                     "    files: Optional[List[Upload]] = None\n"
+                     "    backup: Optional[Upload] = Field(alias='backupFile', default=None)\n"
+                     "    title: Optional[str] = None\n"
+                     "    parent: Optional['DocumentInput'] = None\n"
+                     "    children: Optional[List['DocumentInput']] = None\n"
+                     "DocumentInput.model_rebuild(_types_namespace=dict(globals()))\n", ns)
+                cls.append(ns["DocumentInput"])
+                continue
             cls.append(create_model(f"VInput{i}", __base__=bm.BaseModel, **spec))
         _MODEL_CLASSES = cls
     return _MODEL_CLASSES
@@ -336,6 +392,8 @@ def features(vs):
 
     def go(n, d, under):
         f.add(n[0] if n[0] != "leaf" else f"leaf:{n[1]}")
+        if n[0] == "model" and n[1] == TYPED:
+            f.add(f"Upload-annotated-field@depth{min(d, 4)}-under-{under}")
         if n[0] == "up":
             f.add(f"upload@depth{min(d, 4)}")
             f.add(f"upload-under-{under}")
@@ -406,6 +464,11 @@ def gen_calls(ctx):
                              ("type_", "type", False, ("leaf", "none", None)), ("sub_items", "subItems", True, ("dict", [("k", ("up", 0))]))]))],
         [("a", ("unset",)), ("b", ("unset",))],
         [("d", ("dict", [("0", ("up", 1)), ("1", ("list", [("up", 1)]))]))],
+        # fields annotated with the real Upload class (generated input objects), at several depths
+        [("doc", TDOC(0, [1, 0], 2))],
+        [("docs", ("list", [TDOC(3), TDOC(3, [3])]))],
+        [("payload", ("dict", [("doc", TDOC(2, None, None, TDOC(1, [0]))), ("n", ("leaf", "int", 7))]))],
+        [("doc", TDOC(0, [], None, TDOC(1, None, 1, TDOC(2)), [TDOC(3), TDOC(0, [2, 2])]))],
         # Example C11_unset_in_unset_field_is_sent
         [("a", ("model", 4, [("opt", None, False, ("unset",)), ("y", "Y", True, ("leaf", "int", 1))]))],
         # Example C11_example_multipart (ex_vars)
